@@ -449,7 +449,7 @@ pub fn run(rep: &Report) {
         rep.fail("empty-toggles", &f.signature, f.case, f.expected, f.actual, f.size);
     }
     // random programs (the matrix above is complete only over single calls)
-    let n = rep.tier.pick(300_000u64, 6_000_000);
+    let n = rep.tier.pick(300_000u64, 12_000_000);
     let depth = rep.tier.pick(3u32, 5);
     common::random_search(rep, "programs", 80, n, &move || arb_prog(depth), &|p: &Prog, l| {
         l.sample(3, || json!(tok::render_spaced(&refmodel::ast::render_tokens(&p.ast, &mut refmodel::ast::Minimal))));
